@@ -157,23 +157,29 @@ pub fn universe(thorough: bool) -> Vec<OwnedTerm> {
     let mut u: Vec<OwnedTerm> = vec![];
     u.extend(nums.iter().cloned());
     u.extend(non.iter().cloned());
-    // compounds built from the interesting numeric pairs
+    // compounds built from the interesting pairs
     let core: Vec<OwnedTerm> = vec![
         int(1), OwnedTerm::Float(1.0), int(1 << 53), int((1 << 53) + 1), OwnedTerm::Float(9007199254740992.0), bigv(false, 1 << 64), bigv(false, (1u128 << 64) + 1),
         big(false, vec![0, 0, 0, 0, 0, 0, 0, 0, 2]), OwnedTerm::Float(0.0), OwnedTerm::Float(-0.0), OwnedTerm::Nil, OwnedTerm::Binary(vec![1]), OwnedTerm::BitBinary { bytes: vec![1, 0x80], bits: 1 },
+        atom("a"), OwnedTerm::List(vec![int(1)]), OwnedTerm::ImproperList { elements: vec![int(1)], tail: Box::new(int(2)) }, OwnedTerm::Tuple(vec![int(1)]), OwnedTerm::String("a".into()),
     ];
-    let cn = if thorough { core.len() } else { 9 };
+    let cn = if thorough { core.len() } else { 13 };
+    let inner = if thorough { core.len() } else { 7 };
     for a in core.iter().take(cn) {
         u.push(OwnedTerm::Tuple(vec![a.clone()]));
         u.push(OwnedTerm::List(vec![a.clone()]));
         u.push(map_of(vec![(atom("k"), a.clone())]));
-        if thorough {
-            u.push(map_of(vec![(a.clone(), atom("v"))]));
-            for b in core.iter().take(6) {
-                u.push(OwnedTerm::Tuple(vec![a.clone(), b.clone()]));
-                if !is_listy(b) {
-                    u.push(OwnedTerm::ImproperList { elements: vec![a.clone()], tail: Box::new(b.clone()) });
-                }
+        u.push(map_of(vec![(a.clone(), atom("v"))]));
+        for b in core.iter().take(inner) {
+            u.push(OwnedTerm::Tuple(vec![a.clone(), b.clone()]));
+            u.push(OwnedTerm::List(vec![a.clone(), b.clone()]));
+            if !is_listy(b) {
+                u.push(OwnedTerm::ImproperList { elements: vec![a.clone()], tail: Box::new(b.clone()) });
+            }
+            if thorough {
+                u.push(map_of(vec![(a.clone(), b.clone()), (atom("z"), a.clone())]));
+                u.push(OwnedTerm::Tuple(vec![OwnedTerm::List(vec![a.clone()]), b.clone()]));
+                u.push(OwnedTerm::List(vec![OwnedTerm::Tuple(vec![b.clone()]), a.clone()]));
             }
         }
     }
